@@ -183,7 +183,7 @@ func SchedMain(repo, outDir string) (*SchedResult, error) { return sched(repo, o
 func sched(repo, outDir string, withMain bool) (*SchedResult, error) {
 	patterns := []string{"./input/ast", "./astconv"}
 	if withMain {
-		patterns = append(patterns, "./cmd", "./util", "./op", "./note", "./input")
+		patterns = append(patterns, "./cmd", "./util", "./op", "./note", "./input", "./chord", "./play", "./midix", "./desc")
 	}
 	pkgs, err := load(repo, patterns...)
 	if err != nil {
@@ -248,6 +248,13 @@ func sched(repo, outDir string, withMain bool) (*SchedResult, error) {
 						changed = true
 						res.Points++
 						return false
+					}
+					if s, ok := x.Fun.(*ast.SelectorExpr); ok && withMain && p.Name == "main" {
+						// os.Exit in package main ends one controlled execution, not the explorer
+						if id, ok := s.X.(*ast.Ident); ok && id.Name == "os" && s.Sel.Name == "Exit" {
+							x.Fun = ast.NewIdent("verifExit")
+							changed = true
+						}
 					}
 					if s, ok := x.Fun.(*ast.SelectorExpr); ok {
 						if id, ok := s.X.(*ast.Ident); ok && id.Name == "time" {
@@ -382,8 +389,10 @@ func sched(repo, outDir string, withMain bool) (*SchedResult, error) {
 			})
 			if changed {
 				astutil.AddImport(p.Fset, f, modPath+"/vsched")
-				if !astutil.UsesImport(f, "sync") {
-					astutil.DeleteImport(p.Fset, f, "sync")
+				for _, imp := range []string{"sync", "os", modPath + "/vsched"} {
+					if !astutil.UsesImport(f, imp) {
+						astutil.DeleteImport(p.Fset, f, imp)
+					}
 				}
 				var buf bytes.Buffer
 				if err := format.Node(&buf, p.Fset, f); err != nil {
